@@ -13,6 +13,7 @@ import (
 
 	"verifharness/vhlib"
 
+	"github.com/danielgtaylor/huma/v2"
 	"github.com/els0r/goProbe/v4/pkg/query"
 )
 
@@ -30,13 +31,19 @@ type arg struct {
 	N      int64  `json:"n,omitempty"`
 	Plus   bool   `json:"plus,omitempty"`
 	Raw    []byte `json:"raw,omitempty"`
+	// NowRel (kinds int, abs): N resp. T is the clock reading at the start of the run plus Delta;
+	// kind rels: "-<n>s" (Delta <= 0, past) or "--<n>s" (Delta > 0: the sign accepted by
+	// time.ParseDuration makes it a future instant)
+	NowRel bool  `json:"nowrel,omitempty"`
+	Delta  int64 `json:"delta,omitempty"`
 }
 
 type input struct {
-	Loc   int  `json:"loc"`
-	Range bool `json:"range,omitempty"`
-	A     arg  `json:"a"`
-	B     arg  `json:"b,omitempty"`
+	Loc     int  `json:"loc"`
+	Range   bool `json:"range,omitempty"`
+	Collect bool `json:"collect,omitempty"` // ParseTimeRangeCollectErrors instead of ParseTimeRange
+	A       arg  `json:"a"`
+	B       arg  `json:"b,omitempty"`
 }
 
 // the supported layouts (the specification's list: time.go at the time the check was written, in
@@ -314,6 +321,48 @@ func genArg(r *vhlib.Rand, loc int, i int, search bool) arg {
 	}
 }
 
+var nowDeltas = []int64{-3600, -1, 0, 1, 3600, 315360000}
+
+func layoutIndex(l string) int {
+	for i, x := range layouts {
+		if x == l {
+			return i
+		}
+	}
+	panic("no such layout " + l)
+}
+
+// nowRelArg: a text denoting now+delta, as a Unix integer, in three absolute layouts, or relative
+func nowRelArg(kind int, delta int64) arg {
+	switch kind {
+	case 0:
+		return arg{K: "int", NowRel: true, Delta: delta}
+	case 1:
+		return arg{K: "abs", Layout: layoutIndex("2006-01-02 15:04:05"), NowRel: true, Delta: delta}
+	case 2:
+		return arg{K: "abs", Layout: layoutIndex("2006-01-02T15:04:05Z07:00"), Off: 7200, NowRel: true, Delta: delta}
+	case 3:
+		return arg{K: "abs", Layout: layoutIndex("02.01.2006 15:04"), NowRel: true, Delta: delta}
+	}
+	return arg{K: "rels", Delta: delta}
+}
+
+// resolve fixes the clock-relative parts of an argument to the reading n0
+func resolve(a *arg, n0 int64) {
+	if !a.NowRel {
+		return
+	}
+	switch a.K {
+	case "int":
+		a.N = n0 + a.Delta
+	case "abs":
+		a.T = n0 + a.Delta
+		if !hasSec(layouts[a.Layout]) {
+			a.T -= ((a.T % 60) + 60) % 60 // zones are whole minutes
+		}
+	}
+}
+
 func gen(r *vhlib.Rand, i int, o vhlib.Opts) any {
 	// deterministic prefix: the curated strings, then every layout at two fixed instants
 	if i < len(curated) {
@@ -334,12 +383,33 @@ func gen(r *vhlib.Rand, i int, o vhlib.Opts) any {
 		}
 		return input{Loc: loc, A: arg{K: "abs", Layout: l, Off: off, T: civ - int64(zone)}}
 	}
+	if g := k - 2*len(layouts); g < 120 {
+		// open-ended / explicit end x start in the past, around now, in the future x text kinds x both functions
+		in := input{Loc: locs[1+g%5], Range: true, Collect: g%2 == 1}
+		if (g/2)%2 == 0 {
+			in.B = arg{K: "empty"}
+		} else {
+			in.B = arg{K: "int", NowRel: true}
+		}
+		in.A = nowRelArg((g/4)%5, nowDeltas[(g/20)%6])
+		return in
+	}
 	loc := vhlib.Pick(r, locs)
 	in := input{Loc: loc}
-	if r.Chance(22) {
+	if r.Chance(26) {
 		in.Range = true
+		in.Collect = r.Chance(40)
 		in.A = genArg(r, loc, i, o.Search)
 		in.B = genArg(r, loc, i, o.Search)
+		if r.Chance(25) {
+			in.A = nowRelArg(r.Intn(5), vhlib.Pick(r, []int64{-3600, -1, 0, 1, 2, 60, 3600, 315360000, -31536000, int64(r.Intn(7200)) - 3600}))
+			if r.Chance(60) {
+				in.B = arg{K: "empty"}
+			} else {
+				in.B = arg{K: "int", NowRel: true, Delta: vhlib.Pick(r, []int64{0, 0, 1, -1, 3600, -3600})}
+			}
+			return in
+		}
 		if r.Chance(12) {
 			in.A = arg{K: "empty"}
 		}
@@ -423,6 +493,11 @@ func render(a arg, loc int) (string, bool) {
 		return s, true
 	case "raw":
 		return string(a.Raw), true
+	case "rels":
+		if a.Delta > 0 {
+			return "--" + strconv.FormatInt(a.Delta, 10) + "s", true
+		}
+		return "-" + strconv.FormatInt(-a.Delta, 10) + "s", true
 	}
 	return "", true
 }
@@ -489,6 +564,12 @@ func expectOf(a arg, s string) (string, []string) {
 		return fmt.Sprintf("(EAbs %s %s %s %s)", vhlib.CoqNat(a.Layout), vhlib.CoqZ(int64(a.Off)), vhlib.CoqZ(a.T), vhlib.CoqList(rs)), tags
 	case "empty":
 		return "ENone", []string{"empty"}
+	case "rels":
+		tag := "rels-past"
+		if a.Delta > 0 {
+			tag = "rels-future"
+		}
+		return "(ERel " + vhlib.CoqZ(-a.Delta) + ")", []string{tag}
 	}
 	return "ENone", []string{"raw"}
 }
@@ -526,6 +607,9 @@ func run(raw json.RawMessage, o vhlib.Opts) (*vhlib.Case, error) {
 	}
 	time.Local = time.FixedZone("L", in.Loc)
 	c := &vhlib.Case{}
+	n0 := time.Now().Unix()
+	resolve(&in.A, n0)
+	resolve(&in.B, n0)
 	sa, _ := render(in.A, in.Loc)
 	ea, ta := expectOf(in.A, sa)
 	if !in.Range {
@@ -558,6 +642,9 @@ func run(raw json.RawMessage, o vhlib.Opts) (*vhlib.Case, error) {
 	}
 	sb, _ := render(in.B, in.Loc)
 	eb, tb := expectOf(in.B, sb)
+	if in.Collect {
+		return runCollect(in, c, sa, sb, ea, eb, ta, tb)
+	}
 	var f, l int64
 	var err error
 	var panicked bool
@@ -569,7 +656,7 @@ func run(raw json.RawMessage, o vhlib.Opts) (*vhlib.Case, error) {
 		return nil, cerr
 	}
 	obs, cls := resZ(panicked, err, vhlib.CoqPair(vhlib.CoqZ(f), vhlib.CoqZ(l)))
-	c.Tags = []string{"range", "range-" + cls, "first-" + ta[0], "last-" + tb[0]}
+	c.Tags = []string{"range", "range-" + cls, "first-" + ta[0], "last-" + tb[0], nowTag(in.A)}
 	c.Nontrivial = true
 	ob := map[string]any{"first_text": sa, "last_text": sb, "class": cls, "lo": lo, "hi": hi}
 	if cls == "ok" {
@@ -583,6 +670,68 @@ func run(raw json.RawMessage, o vhlib.Opts) (*vhlib.Case, error) {
 	}
 	c.Observed = ob
 	c.Coq = fmt.Sprintf("CRange %s %s %s %s %s %s %s %s", vhlib.CoqZ(int64(in.Loc)), coqStr(sa), coqStr(sb),
+		vhlib.CoqZ(lo), vhlib.CoqZ(hi), ea, eb, obs)
+	return c, nil
+}
+
+func nowTag(a arg) string {
+	if a.NowRel || a.K == "rels" {
+		switch {
+		case a.Delta > 2:
+			return "first-future"
+		case a.Delta < -2:
+			return "first-past"
+		}
+		return "first-about-now"
+	}
+	return "first-fixed"
+}
+
+func runCollect(in input, c *vhlib.Case, sa, sb, ea, eb string, ta, tb []string) (*vhlib.Case, error) {
+	var f, l int64
+	var codes []string
+	var msgs []string
+	var panicked bool
+	var pmsg string
+	lo, hi, cerr := clock(func() {
+		codes, msgs = nil, nil
+		panicked, pmsg = vhlib.Recover(func() {
+			var details []*huma.ErrorDetail
+			f, l, details = query.ParseTimeRangeCollectErrors(sa, sb)
+			for _, d := range details {
+				msgs = append(msgs, d.Location+": "+d.Message)
+				switch {
+				case strings.HasPrefix(d.Message, "invalid time interval"):
+					codes = append(codes, "3%Z")
+				case d.Location == "body.first":
+					codes = append(codes, "1%Z")
+				case d.Location == "body.last":
+					codes = append(codes, "2%Z")
+				default:
+					codes = append(codes, "9%Z")
+				}
+			}
+		})
+	})
+	if cerr != nil {
+		return nil, cerr
+	}
+	obs, cls := "Panic", "panic"
+	if !panicked {
+		cls = "ok"
+		if len(codes) > 0 {
+			cls = "details"
+		}
+		obs = fmt.Sprintf("(Ok (%s, %s, %s))", vhlib.CoqZ(f), vhlib.CoqZ(l), vhlib.CoqList(codes))
+	}
+	c.Tags = []string{"collect", "collect-" + cls, "first-" + ta[0], "last-" + tb[0], nowTag(in.A)}
+	c.Nontrivial = true
+	ob := map[string]any{"first_text": sa, "last_text": sb, "class": cls, "lo": lo, "hi": hi, "first": f, "last": l, "details": msgs}
+	if panicked {
+		ob["panic"] = pmsg
+	}
+	c.Observed = ob
+	c.Coq = fmt.Sprintf("CCollect %s %s %s %s %s %s %s %s", vhlib.CoqZ(int64(in.Loc)), coqStr(sa), coqStr(sb),
 		vhlib.CoqZ(lo), vhlib.CoqZ(hi), ea, eb, obs)
 	return c, nil
 }
